@@ -11,6 +11,11 @@ import Splipy.Lemmas.C16CenterReal
 import Splipy.Lemmas.C16Bridge
 import Splipy.Lemmas.C16Composite
 import Splipy.Lemmas.C16Invariance
+import Splipy.Lemmas.C16VolumeExact
+import Splipy.Lemmas.C16Spans
+import Splipy.Lemmas.C16VolumeReal
+import Splipy.Lemmas.C16VolumeWhole
+import Splipy.Lemmas.C16VolumeInsert
 import Mathlib.Algebra.Order.Archimedean.Real.Basic
 
 /-!
@@ -32,9 +37,12 @@ Three kinds of theorems (kernel-checked; ordered field `K` unless `ℝ` is writt
   Jacobian of the specification derivatives of the MAP at the nodes, via C03), the representation
   independence `C16_curvature_torsion_insert_knot_invariant`, `C16_curvature_insert_knot_invariant_planar`
   (via C04), `C16_curvature_torsion_rotation_partial`, `C16_curvature_torsion_scaling_partial`
-  (rotated / scaled control NET as hypothesis), and exactness `C16_volume_exact_partial`,
-  `C16_area_planar_exact_partial`, `C16_gauss_rule_exact_composite` for rules satisfying the moment
-  equations (`GaussRule`, any number of nodes).
+  (rotated / scaled control NET as hypothesis); exactness `C16_volume_exact` (no `hF`: the Jacobian
+  determinant IS a tensor polynomial on every element, constant sign per element assumed),
+  `C16_volume_is_integral` (`ℝ`: `= Σ_elements ∫∫∫ |det J|`), representation independence
+  `C16_volume_insert_knot_invariant` (`o'.volume = o.volume` for insertion in the first direction);
+  `C16_volume_exact_partial`, `C16_area_planar_exact_partial` (general integrand / planar area with
+  the tensor-polynomial hypothesis `hF`), `C16_gauss_rule_exact_composite`.
 
 **(B) About the specification** (`intF`, `Bpoly`, `B`): `C16_basis_integral_identity`, `_span`,
 `_continuity`, `_real`, `C16_basis_integrals_sum`, `C16_quadrature_exact_basis`,
@@ -60,9 +68,9 @@ rule over `ℝ`, not about the rational run.
       3-D surface areas, everything rational, volumes of order `> 5`);
   (2) convergence to the analytic values for circles, spheres, cylinders and tori.
 These are covered by the model-independent oracle only; C16 is PARTIAL for exactly these clauses.
-Also not proved: `hF` of `C16_volume_exact_partial` / `C16_area_planar_exact_partial` (the polynomial
-representation of the one-signed Jacobian from `Bpoly`), hence no model-level statement that
-`Obj.volume`/planar area are unchanged by insertion/elevation/swap; `Obj.center` for volumes and
+Also not proved: `hF` of `C16_area_planar_exact_partial` (planar area; for volumes it is discharged
+in `C16_volume_exact`); model-level invariance of `Obj.volume` under insertion in directions 1, 2,
+under `raise_order`, `swap`, `reverse`, split-and-sum, and of the planar area under anything; `Obj.center` for volumes and
 rational / periodic surfaces; `curvatureData`/`torsionData`/`lengthData` of RATIONAL curves (the
 closed-form derivative path) and `frenetData`; order elevation and reversal of curvature/torsion at
 model level; the link from `Obj.rotate/scale` to the net hypotheses of the `_partial` theorems
@@ -527,6 +535,60 @@ theorem C16_volume_exact_partial [CharZero K] {o : Obj K} {b1 b2 b3 : Basis K}
     (fun u v w => |jac3 (o.specD3 b1 b2 b3 3 u v w 1 0 0) (o.specD3 b1 b2 b3 3 u v w 0 1 0)
       (o.specD3 b1 b2 b3 3 u v w 0 0 1)|) fam P R T hF
 
+/-- **`Volume.volume()` is EXACT for non-rational volumes** — hypothesis `hF` of
+`C16_volume_exact_partial` DISCHARGED.  For a non-rational volume on valid non-periodic bases whose
+distinct knots are more than `tol` apart (`Basis.SepStrict`: then every element of `knot_spans()` is
+one knot span, `Basis.spanCover_of_sepStrict`), rules satisfying the Gauss moment equations up to
+degree `D_d ≥ 3p_d − 4` (= the degree of the Jacobian determinant in direction `d`; for
+`leggauss(p_d+1)`, `D_d = 2p_d+1`, i.e. orders `p_d ≤ 5`) with nodes in `(−1,1)`, nodes admissible
+(exact for the tolerance), and a Jacobian determinant of CONSTANT SIGN on every open element
+(`hsign` — exactly what the absolute value in the source needs; without it `|J|` is not a
+polynomial and no rule is exact): the executable `Obj.volume` returns
+`Σ_{e1,e2,e3} (±1)·boxIntegral`, where `Obj.boxIntegral` is the integral of the Jacobian
+determinant's polynomial piece (`Obj.jacP/jacR/jacT`: products of `Bpoly` pieces, one differentiated
+per row, times 3×3 determinants of control points — `Obj.jac3_eq_tensor`) over the element, defined
+by antiderivatives, and `±1 = Obj.boxSign` its sign there. -/
+theorem C16_volume_exact [CharZero K] {o : Obj K} {b1 b2 b3 : Basis K}
+    (hb : o.bases = #[b1, b2, b3]) (hv1 : b1.Valid) (hv2 : b2.Valid) (hv3 : b3.Valid)
+    (hp1 : b1.periodic = -1) (hp2 : b2.periodic = -1) (hp3 : b3.periodic = -1)
+    (hs : o.cps.shape = [b1.numFunctions, b2.numFunctions, b3.numFunctions, 3])
+    (hr : o.rational = false) {tol : K} (htol : 0 < tol)
+    (hsep1 : b1.SepStrict tol) (hsep2 : b2.SepStrict tol) (hsep3 : b3.SepStrict tol)
+    {x1 wt1 x2 wt2 x3 wt3 : List K} {D1 D2 D3 : ℕ} (hr1 : GaussRule x1 wt1 D1)
+    (hr2 : GaussRule x2 wt2 D2) (hr3 : GaussRule x3 wt3 D3)
+    (hD1 : (b1.order - 1 - 1) + (b1.order - 1) + (b1.order - 1) ≤ D1)
+    (hD2 : (b2.order - 1) + (b2.order - 1 - 1) + (b2.order - 1) ≤ D2)
+    (hD3 : (b3.order - 1) + (b3.order - 1) + (b3.order - 1 - 1) ≤ D3)
+    (hx1 : ∀ i, i < wt1.length → -1 < x1.getD i 0 ∧ x1.getD i 0 < 1)
+    (hx2 : ∀ i, i < wt2.length → -1 < x2.getD i 0 ∧ x2.getD i 0 < 1)
+    (hx3 : ∀ i, i < wt3.length → -1 < x3.getD i 0 ∧ x3.getD i 0 < 1)
+    (hadm1 : ∀ u ∈ (gaussMap (b1.knotSpans tol false).toList x1 wt1).1, b1.Admissible tol u)
+    (hadm2 : ∀ u ∈ (gaussMap (b2.knotSpans tol false).toList x2 wt2).1, b2.Admissible tol u)
+    (hadm3 : ∀ u ∈ (gaussMap (b3.knotSpans tol false).toList x3 wt3).1, b3.Admissible tol u)
+    (hne1 : (gaussMap (b1.knotSpans tol false).toList x1 wt1).1 ≠ [])
+    (hne2 : (gaussMap (b2.knotSpans tol false).toList x2 wt2).1 ≠ [])
+    (hne3 : (gaussMap (b3.knotSpans tol false).toList x3 wt3).1 ≠ [])
+    (hsign : ∀ e1 ∈ elements (b1.knotSpans tol false).toList,
+      ∀ e2 ∈ elements (b2.knotSpans tol false).toList,
+      ∀ e3 ∈ elements (b3.knotSpans tol false).toList,
+      (∀ u v w, e1.1 < u → u < e1.2 → e2.1 < v → v < e2.2 → e3.1 < w → w < e3.2 →
+        0 ≤ o.jacSpec b1 b2 b3 u v w) ∨
+      (∀ u v w, e1.1 < u → u < e1.2 → e2.1 < v → v < e2.2 → e3.1 < w → w < e3.2 →
+        o.jacSpec b1 b2 b3 u v w ≤ 0)) :
+    o.volume tol x1 wt1 x2 wt2 x3 wt3 = .ok
+      (((elements (b1.knotSpans tol false).toList).map (fun e1 =>
+        ((elements (b2.knotSpans tol false).toList).map (fun e2 =>
+          ((elements (b3.knotSpans tol false).toList).map (fun e3 =>
+            o.boxSign b1 b2 b3 e1 e2 e3 *
+              o.boxIntegral b1 b2 b3
+                (b1.spanOf tol (b1.spanCover_of_sepStrict hv1 tol htol.le hsep1) e1)
+                (b2.spanOf tol (b2.spanCover_of_sepStrict hv2 tol htol.le hsep2) e2)
+                (b3.spanOf tol (b3.spanCover_of_sepStrict hv3 tol htol.le hsep3) e3)
+                e1 e2 e3)).sum)).sum)).sum) :=
+  Obj.volume_exact hb hv1 hv2 hv3 hp1 hp2 hp3 hs hr htol hr1 hr2 hr3 hD1 hD2 hD3 hx1 hx2 hx3
+    (b1.spanCover_of_sepStrict hv1 tol htol.le hsep1) (b2.spanCover_of_sepStrict hv2 tol htol.le hsep2)
+    (b3.spanCover_of_sepStrict hv3 tol htol.le hsep3) hadm1 hadm2 hadm3 hne1 hne2 hne3 hsign
+
 /-- **`Surface.area()` of a planar non-rational surface** (model level): bridge and exactness in
 one statement.  The finished number of `Obj.areaData` is `Σ_elements Σ_c ΔP_c·ΔR_c` whenever the
 absolute Jacobian `|(∂_u x × ∂_v x)_z|` of the map agrees on every element, at its nodes, with
@@ -567,6 +629,110 @@ theorem C16_area_planar_exact_partial [CharZero K] {o : Obj K} {b1 b2 : Basis K}
     (fun u v => |cross2 (o.specD2 b1 b2 2 u v 1 0) (o.specD2 b1 b2 2 u v 0 1)|) fam P R hF
   rw [hx] at h
   exact ⟨_, _, _, h⟩
+
+/-- **`Volume.volume()` IS the volume integral** (`K = ℝ`, Mathlib's interval integrals): under the
+hypotheses of `C16_volume_exact` the executable `Obj.volume` returns
+`Σ_{e1,e2,e3} ∫_{e1} ∫_{e2} ∫_{e3} |det J(u,v,w)| dw dv du`, `J = Obj.jacSpec` the Jacobian
+determinant of the evaluated MAP (specification partial derivatives, C03) — a quantity that depends
+on the map and on the element partition only.  (`Obj.volume_eq_whole`: the element sum of the first
+direction collapses to ONE integral `∫_{start}^{end}`.) -/
+theorem C16_volume_is_integral {o : Obj ℝ} {b1 b2 b3 : Basis ℝ} (hb : o.bases = #[b1, b2, b3])
+    (hv1 : b1.Valid) (hv2 : b2.Valid) (hv3 : b3.Valid) (hp1 : b1.periodic = -1)
+    (hp2 : b2.periodic = -1) (hp3 : b3.periodic = -1)
+    (hs : o.cps.shape = [b1.numFunctions, b2.numFunctions, b3.numFunctions, 3])
+    (hr : o.rational = false) {tol : ℝ} (htol : 0 < tol)
+    (hsep1 : b1.SepStrict tol) (hsep2 : b2.SepStrict tol) (hsep3 : b3.SepStrict tol)
+    {x1 wt1 x2 wt2 x3 wt3 : List ℝ} {D1 D2 D3 : ℕ} (hr1 : GaussRule x1 wt1 D1)
+    (hr2 : GaussRule x2 wt2 D2) (hr3 : GaussRule x3 wt3 D3)
+    (hD1 : (b1.order - 1 - 1) + (b1.order - 1) + (b1.order - 1) ≤ D1)
+    (hD2 : (b2.order - 1) + (b2.order - 1 - 1) + (b2.order - 1) ≤ D2)
+    (hD3 : (b3.order - 1) + (b3.order - 1) + (b3.order - 1 - 1) ≤ D3)
+    (hx1 : ∀ i, i < wt1.length → -1 < x1.getD i 0 ∧ x1.getD i 0 < 1)
+    (hx2 : ∀ i, i < wt2.length → -1 < x2.getD i 0 ∧ x2.getD i 0 < 1)
+    (hx3 : ∀ i, i < wt3.length → -1 < x3.getD i 0 ∧ x3.getD i 0 < 1)
+    (hadm1 : ∀ u ∈ (gaussMap (b1.knotSpans tol false).toList x1 wt1).1, b1.Admissible tol u)
+    (hadm2 : ∀ u ∈ (gaussMap (b2.knotSpans tol false).toList x2 wt2).1, b2.Admissible tol u)
+    (hadm3 : ∀ u ∈ (gaussMap (b3.knotSpans tol false).toList x3 wt3).1, b3.Admissible tol u)
+    (hne1 : (gaussMap (b1.knotSpans tol false).toList x1 wt1).1 ≠ [])
+    (hne2 : (gaussMap (b2.knotSpans tol false).toList x2 wt2).1 ≠ [])
+    (hne3 : (gaussMap (b3.knotSpans tol false).toList x3 wt3).1 ≠ [])
+    (hsign : ∀ e1 ∈ elements (b1.knotSpans tol false).toList,
+      ∀ e2 ∈ elements (b2.knotSpans tol false).toList,
+      ∀ e3 ∈ elements (b3.knotSpans tol false).toList,
+      (∀ u v w, e1.1 < u → u < e1.2 → e2.1 < v → v < e2.2 → e3.1 < w → w < e3.2 →
+        0 ≤ o.jacSpec b1 b2 b3 u v w) ∨
+      (∀ u v w, e1.1 < u → u < e1.2 → e2.1 < v → v < e2.2 → e3.1 < w → w < e3.2 →
+        o.jacSpec b1 b2 b3 u v w ≤ 0)) :
+    o.volume tol x1 wt1 x2 wt2 x3 wt3 = .ok
+      (((elements (b1.knotSpans tol false).toList).map (fun e1 =>
+        ((elements (b2.knotSpans tol false).toList).map (fun e2 =>
+          ((elements (b3.knotSpans tol false).toList).map (fun e3 =>
+            ∫ u in e1.1..e1.2, ∫ v in e2.1..e2.2, ∫ w in e3.1..e3.2,
+              |o.jacSpec b1 b2 b3 u v w|)).sum)).sum)).sum) :=
+  Obj.volume_eq_integral hb hv1 hv2 hv3 hp1 hp2 hp3 hs hr htol hsep1 hsep2 hsep3 hr1 hr2 hr3
+    hD1 hD2 hD3 hx1 hx2 hx3 hadm1 hadm2 hadm3 hne1 hne2 hne3 hsign
+
+/-- **Representation independence of `Volume.volume()` under knot insertion** — the clause the
+property is named after, about the executable `Obj.volume` itself (`K = ℝ`):
+if `o' = o.insert_knot(xs, direction=0)` (any values of `[start, end)`, `Obj.insertKnots`) then
+`o'.volume() = o.volume()`, for non-rational volumes on valid non-periodic bases (first order `≥ 2`)
+with strictly separated knots before and after, rules satisfying the Gauss moment equations up to
+degree `3p_d − 4` with nodes in `(−1,1)`, admissible nodes, and a Jacobian determinant of constant
+sign on every element of BOTH partitions (`hsign`, `hsign'`: the second follows from the first when
+the refined elements subdivide the old ones; it is stated separately to avoid that list argument).
+Proof: both volumes are `∫_{start}^{end} H(u) du` with `H` depending on the map only
+(`Obj.volume_eq_whole`), the map is unchanged (C04: `Obj.volume_insert_specD3`), and the integral is
+additive over the refined elements.
+Not proved (no theorem, oracle only): insertion in directions 1 and 2 (the same argument with the
+roles of the directions exchanged), `raise_order`, `swap`, `reverse`, split-and-sum; the planar
+`Surface.area` (its `hF` is still a hypothesis: `C16_area_planar_exact_partial`); and nothing of this
+kind can hold for `Curve.length` / 3-D `Surface.area` / rational objects, whose integrands are not
+polynomial (`lengthData` is the speed at the nodes, `C16_lengthData_spec`; the square root is taken
+outside and no rule is exact for it) — those clauses are quadrature-ERROR statements. -/
+theorem C16_volume_insert_knot_invariant {o o' : Obj ℝ} {b1 b2 b3 : Basis ℝ}
+    (hb : o.bases = #[b1, b2, b3]) (hv1 : b1.Valid) (hv2 : b2.Valid) (hv3 : b3.Valid)
+    (hp1 : b1.periodic = -1) (hp2 : b2.periodic = -1) (hp3 : b3.periodic = -1)
+    (ho1 : 2 ≤ b1.order)
+    (hs : o.cps.shape = [b1.numFunctions, b2.numFunctions, b3.numFunctions, 3])
+    (hr : o.rational = false) {tol : ℝ} (htol : 0 < tol)
+    (hsep1 : b1.SepStrict tol) (hsep2 : b2.SepStrict tol) (hsep3 : b3.SepStrict tol)
+    {x1 wt1 x2 wt2 x3 wt3 : List ℝ} {D1 D2 D3 : ℕ} (hr1 : GaussRule x1 wt1 D1)
+    (hr2 : GaussRule x2 wt2 D2) (hr3 : GaussRule x3 wt3 D3)
+    (hD1 : (b1.order - 1 - 1) + (b1.order - 1) + (b1.order - 1) ≤ D1)
+    (hD2 : (b2.order - 1) + (b2.order - 1 - 1) + (b2.order - 1) ≤ D2)
+    (hD3 : (b3.order - 1) + (b3.order - 1) + (b3.order - 1 - 1) ≤ D3)
+    (hx1 : ∀ i, i < wt1.length → -1 < x1.getD i 0 ∧ x1.getD i 0 < 1)
+    (hx2 : ∀ i, i < wt2.length → -1 < x2.getD i 0 ∧ x2.getD i 0 < 1)
+    (hx3 : ∀ i, i < wt3.length → -1 < x3.getD i 0 ∧ x3.getD i 0 < 1)
+    (hadm1 : ∀ u ∈ (gaussMap (b1.knotSpans tol false).toList x1 wt1).1, b1.Admissible tol u)
+    (hadm2 : ∀ u ∈ (gaussMap (b2.knotSpans tol false).toList x2 wt2).1, b2.Admissible tol u)
+    (hadm3 : ∀ u ∈ (gaussMap (b3.knotSpans tol false).toList x3 wt3).1, b3.Admissible tol u)
+    (hne1 : (gaussMap (b1.knotSpans tol false).toList x1 wt1).1 ≠ [])
+    (hne2 : (gaussMap (b2.knotSpans tol false).toList x2 wt2).1 ≠ [])
+    (hne3 : (gaussMap (b3.knotSpans tol false).toList x3 wt3).1 ≠ [])
+    (hsign : ∀ e1 ∈ elements (b1.knotSpans tol false).toList,
+      ∀ e2 ∈ elements (b2.knotSpans tol false).toList,
+      ∀ e3 ∈ elements (b3.knotSpans tol false).toList,
+      (∀ u v w, e1.1 < u → u < e1.2 → e2.1 < v → v < e2.2 → e3.1 < w → w < e3.2 →
+        0 ≤ o.jacSpec b1 b2 b3 u v w) ∨
+      (∀ u v w, e1.1 < u → u < e1.2 → e2.1 < v → v < e2.2 → e3.1 < w → w < e3.2 →
+        o.jacSpec b1 b2 b3 u v w ≤ 0))
+    (xs : List ℝ) (hxs : ∀ x ∈ xs, b1.start ≤ x ∧ x < b1.stop) (ho' : o.insertKnots xs 0 = .ok o')
+    (hsep1' : (o'.basis 0).SepStrict tol)
+    (hadm1' : ∀ u ∈ (gaussMap ((o'.basis 0).knotSpans tol false).toList x1 wt1).1,
+      (o'.basis 0).Admissible tol u)
+    (hne1' : (gaussMap ((o'.basis 0).knotSpans tol false).toList x1 wt1).1 ≠ [])
+    (hsign' : ∀ e1 ∈ elements ((o'.basis 0).knotSpans tol false).toList,
+      ∀ e2 ∈ elements (b2.knotSpans tol false).toList,
+      ∀ e3 ∈ elements (b3.knotSpans tol false).toList,
+      (∀ u v w, e1.1 < u → u < e1.2 → e2.1 < v → v < e2.2 → e3.1 < w → w < e3.2 →
+        0 ≤ o.jacSpec b1 b2 b3 u v w) ∨
+      (∀ u v w, e1.1 < u → u < e1.2 → e2.1 < v → v < e2.2 → e3.1 < w → w < e3.2 →
+        o.jacSpec b1 b2 b3 u v w ≤ 0)) :
+    o'.volume tol x1 wt1 x2 wt2 x3 wt3 = o.volume tol x1 wt1 x2 wt2 x3 wt3 :=
+  Obj.volume_insertKnots_dir0 hb hv1 hv2 hv3 hp1 hp2 hp3 ho1 hs hr htol hsep1 hsep2 hsep3 hr1 hr2
+    hr3 hD1 hD2 hD3 hx1 hx2 hx3 hadm1 hadm2 hadm3 hne1 hne2 hne3 hsign xs hxs ho' hsep1' hadm1'
+    hne1' hsign'
 
 end model_bridges
 
@@ -1004,3 +1170,95 @@ example : dot (frenetT (![3, 4, 0] : Fin 3 → ℚ) 5) (frenetN ![3, 4, 0] ![0, 
     (by simp [normSq, dot]; norm_num) (by norm_num)
     (by simp [normSq, dot, cross]; norm_num) (by norm_num)
   exact ⟨h.2.2.2.1, h.2.2.2.2.2.2⟩
+
+/-! ## Non-vacuity of `C16_volume_exact`: all hypotheses hold for a concrete volume over `ℚ` -/
+
+section volume_example
+open Measure
+
+/-- The linear Bernstein basis on `[0,1]` over `ℚ`. -/
+def C16_exB : Basis ℚ := ⟨2, #[0, 0, 1, 1], -1⟩
+
+theorem C16_exB_kn (i : ℕ) : C16_exB.kn i = if i < 2 then 0 else 1 := by
+  rcases Nat.lt_or_ge i 4 with h | h
+  · interval_cases i <;> norm_num [Basis.kn, C16_exB]
+  · rw [C16_exB.kn_of_ge (by simpa [C16_exB] using h), if_neg (by omega)]
+    norm_num [Basis.kn, C16_exB]
+
+theorem C16_exB_valid : C16_exB.Valid where
+  order_pos := by decide
+  size_ge := by decide
+  sorted := by
+    intro i _
+    rw [C16_exB_kn, C16_exB_kn]
+    split_ifs <;> first | omega | norm_num
+  periodic_ge := by decide
+  periodic_le := Or.inr rfl
+  start_lt_stop := by
+    unfold Basis.start Basis.stop
+    rw [C16_exB_kn, C16_exB_kn]
+    norm_num [C16_exB]
+  ghosts := fun h => absurd h (by decide)
+
+theorem C16_exB_sep : C16_exB.SepStrict (1/1000) := by
+  intro i j
+  rw [C16_exB_kn, C16_exB_kn]
+  split_ifs <;> norm_num
+
+theorem C16_exB_spans : C16_exB.knotSpans (1/1000) false = #[0, 1] := by
+  simp [Basis.knotSpans, C16_exB, Basis.kn]
+  norm_num [abs_of_nonneg, abs_of_neg]
+
+/-- A rational 3-point rule with nodes in `(−1,1)` satisfying the moment equations up to degree 3. -/
+theorem C16_exRule : GaussRule (K := ℚ) [-1/2, 0, 1/2] [4/3, -2/3, 4/3] 3 := by
+  refine ⟨rfl, ?_⟩
+  intro k hk
+  interval_cases k <;> simp [Fin.sum_univ_succ] <;> norm_num
+
+/-- The degenerate trilinear volume with all control points `0` (its Jacobian vanishes). -/
+def C16_exVol : Obj ℚ :=
+  { bases := #[C16_exB, C16_exB, C16_exB],
+    cps := { shape := [2, 2, 2, 3], data := Array.replicate 24 0 }, rational := false }
+
+theorem C16_exVol_jac (u v w : ℚ) : C16_exVol.jacSpec C16_exB C16_exB C16_exB u v w = 0 := by
+  have h : ∀ k, C16_exVol.cps.get k = 0 := by
+    intro k
+    simp [Tensor.get, C16_exVol, Array.getD]
+  simp [Obj.jacSpec, Obj.specD3, h, jac3, Array.getD]
+
+/-- `C16_volume_exact` applies (every hypothesis is proved for this volume and this rule). -/
+example : ∃ V, C16_exVol.volume (1/1000) [-1/2, 0, 1/2] [4/3, -2/3, 4/3] [-1/2, 0, 1/2] [4/3, -2/3, 4/3]
+    [-1/2, 0, 1/2] [4/3, -2/3, 4/3] = .ok V := by
+  have hnodes : (gaussMap (C16_exB.knotSpans (1/1000) false).toList [-1/2, 0, 1/2] [4/3, -2/3, 4/3]).1
+      = [1/4, 1/2, 3/4] := by
+    rw [C16_exB_spans]
+    simp [gaussMap]
+    norm_num
+  have hadm : ∀ u ∈ (gaussMap (C16_exB.knotSpans (1/1000) false).toList [-1/2, 0, 1/2] [4/3, -2/3, 4/3]).1,
+      C16_exB.Admissible (1/1000) u := by
+    rw [hnodes]
+    intro u hu
+    have hs : C16_exB.start = 0 := by unfold Basis.start; rw [C16_exB_kn]; norm_num [C16_exB]
+    have he : C16_exB.stop = 1 := by unfold Basis.stop; rw [C16_exB_kn]; norm_num [C16_exB]
+    refine ⟨?_, ?_, fun h => absurd h (by decide)⟩
+    · intro i _
+      rw [C16_exB_kn]
+      simp only [List.mem_cons, List.not_mem_nil, or_false] at hu
+      rcases hu with rfl | rfl | rfl <;> split_ifs <;> norm_num
+    · intro _
+      rw [hs, he]
+      simp only [List.mem_cons, List.not_mem_nil, or_false] at hu
+      rcases hu with rfl | rfl | rfl <;> norm_num
+  have hx : ∀ i, i < ([4/3, -2/3, 4/3] : List ℚ).length →
+      -1 < ([-1/2, 0, 1/2] : List ℚ).getD i 0 ∧ ([-1/2, 0, 1/2] : List ℚ).getD i 0 < 1 := by
+    intro i hi
+    have : i < 3 := hi
+    interval_cases i <;> norm_num
+  have hne : (gaussMap (C16_exB.knotSpans (1/1000) false).toList [-1/2, 0, 1/2] [4/3, -2/3, 4/3]).1 ≠ [] := by
+    rw [hnodes]; simp
+  exact ⟨_, C16_volume_exact (o := C16_exVol) rfl C16_exB_valid C16_exB_valid C16_exB_valid rfl rfl rfl
+    rfl rfl (by norm_num) C16_exB_sep C16_exB_sep C16_exB_sep C16_exRule C16_exRule C16_exRule
+    (by decide) (by decide) (by decide) hx hx hx hadm hadm hadm hne hne hne
+    (fun e1 _ e2 _ e3 _ => Or.inl (fun u v w _ _ _ _ _ _ => by rw [C16_exVol_jac]))⟩
+
+end volume_example
